@@ -138,6 +138,14 @@ class _NodeTraversalInfo(NamedTuple):
     findex: int | None
 
 
+_PositionKey = tuple[int, int, int, int | None]
+
+
+def _position_key(n_info: _NodeTraversalInfo | NodeTraversalInfo) -> _PositionKey:
+    """Identity of a position in the tree (the objects themselves, not their content)."""
+    return (id(n_info.node), id(n_info.parent), id(n_info.field), n_info.findex)
+
+
 def _match_node_element(
     n_info: _NodeTraversalInfo | NodeTraversalInfo, element: ASTXpathElement
 ) -> bool:
@@ -254,16 +262,19 @@ class ASTXpath:
         Use of this file is governed by the BSD 3-clause license that
         can be found in the LICENSE.txt file in the project root.
         """
-        # Using dict, because set is not ordered
+        # Using dict, because set is not ordered. Keyed by the identity of the position
+        # (node, parent, field, index): nodes compare equal by content, and two distinct
+        # but equal nodes (e.g. twin subtrees) are two different matches
         dummy_root = _DUMMY_XPATH_ROOT(root)
-        work: dict[_NodeTraversalInfo | NodeTraversalInfo, None] = {
-            _NodeTraversalInfo(dummy_root, None, None, None): None
+        root_info = _NodeTraversalInfo(dummy_root, None, None, None)
+        work: dict[_PositionKey, _NodeTraversalInfo | NodeTraversalInfo] = {
+            _position_key(root_info): root_info
         }
 
         for el in self._elements:
-            new_work: dict[_NodeTraversalInfo | NodeTraversalInfo, None] = {}
+            new_work: dict[_PositionKey, _NodeTraversalInfo | NodeTraversalInfo] = {}
 
-            for n_info in work:
+            for n_info in work.values():
                 if el.anywhere:
                     for c_info in n_info.node.dfs():
                         if c_info.parent is dummy_root:
@@ -272,8 +283,7 @@ class ASTXpath:
                         if _match_node_element(c_info, el):
                             # Insert into our "ordered set" only if not already in there
                             # this is to prefer first insertion order
-                            if c_info not in new_work:
-                                new_work[c_info] = None
+                            new_work.setdefault(_position_key(c_info), c_info)
                 else:
                     for c, f, i in n_info.node.get_child_nodes_with_field():
                         c_info = NodeTraversalInfo(c, n_info.node, f, i)
@@ -281,8 +291,7 @@ class ASTXpath:
                             # The real root has no parent, field or index
                             c_info = _NodeTraversalInfo(c, None, None, None)
                         if _match_node_element(c_info, el):
-                            if c_info not in new_work:
-                                new_work[c_info] = None
+                            new_work.setdefault(_position_key(c_info), c_info)
             work = new_work
 
-        yield from [n_info.node for n_info in new_work.keys()]
+        yield from [n_info.node for n_info in new_work.values()]
